@@ -62,7 +62,8 @@ def run_checks(wt, ids, tier="quick"):
             if m and os.path.exists(m.group(1)):
                 head = open(m.group(1)).read().splitlines()[:3]
                 replays.append({"file": os.path.basename(m.group(1)), "head": head, "no_failing_input": "no-failing-input-found" in l})
-        res[cid] = {"exit": rc, "caught": rc != 0 and bool(viol), "violations": len(viol), "replays": replays[:4], "wall_s": round(time.time() - t0, 1),
+        infra = any("lake build failed" in " ".join(r["head"]) or "go build" in " ".join(r["head"]) and "FAILED" in " ".join(r["head"]) for r in replays)
+        res[cid] = {"exit": rc, "caught": rc != 0 and bool(viol) and not infra, "infrastructure_failure": infra, "violations": len(viol), "replays": replays[:4], "wall_s": round(time.time() - t0, 1),
                     "tail": out.splitlines()[-3:]}
     return res
 
@@ -134,7 +135,7 @@ def rerun(name, checks, tier="quick"):
         if rc != 0:
             print("patch no longer applies:", o)
             return
-        res = run_checks(wt, checks or [meta["property"]], tier)
+        res = run_checks(wt, checks or sorted(meta.get("checks", {})) or [meta["property"]], tier)
     finally:
         drop(wt)
     meta.setdefault("checks", {}).update(res)
